@@ -441,7 +441,7 @@ namespace
   }
 
   // Attributes whose value is a named constant, a line or a column
-  // number, whatever constant form it is stored in.
+  // number, or a file name, whatever constant form it is stored in.
   bool
   attr_has_own_domain (int code)
   {
@@ -464,6 +464,8 @@ namespace
       case DW_AT_call_line:
       case DW_AT_decl_column:
       case DW_AT_call_column:
+      case DW_AT_decl_file:
+      case DW_AT_call_file:
 	return true;
       }
     return false;
